@@ -6,6 +6,11 @@
 #include "vcommon.hpp"
 using namespace chaiscript;
 using Parser = parser::ChaiScript_Parser<eval::Noop_Tracer, optimizer::Optimizer_Default>;
+struct Identity_Pass {
+  template<typename T>
+  auto optimize(eval::AST_Node_Impl_Ptr<T> p) { return p; }
+};
+using PlainParser = parser::ChaiScript_Parser<eval::Noop_Tracer, optimizer::Optimizer<Identity_Pass>>;   // the tree as parsed, nothing folded away
 
 namespace chaiscript_verif {
   struct Access {
@@ -29,6 +34,18 @@ namespace chaiscript_verif {
       } catch (const chaiscript::exception::eval_error &) {
         return "illegal " + where();
       }
+    }
+    // `leaves <hex>`: parse and count the operand leaves (Id / Constant nodes without children) of the tree
+    static void count_leaves(const AST_Node &n, size_t &ids, size_t &other) {
+      auto ch = n.get_children();
+      if (ch.empty()) { if (n.identifier == AST_Node_Type::Id || n.identifier == AST_Node_Type::Constant) ++ids; else ++other; }
+      for (auto &c : ch) count_leaves(c.get(), ids, other);
+    }
+    static std::string leaves(PlainParser &p, const std::string &input) {
+      auto ast = p.parse_internal(input, "fuzz");
+      size_t ids = 0, other = 0;
+      count_leaves(*ast, ids, other);
+      return "ok operands=" + std::to_string(ids) + " otherleaves=" + std::to_string(other);
     }
     static std::string after_error(Parser &p) {
       return " depth=" + std::to_string(p.m_current_parse_depth);
@@ -54,6 +71,16 @@ int main() {
       buf.shrink_to_fit();
       Parser p;
       std::cout << chaiscript_verif::Access::ws(p, buf, size_t(std::stoul(w[2])), w[3] == "1") << "\n" << std::flush;
+      continue;
+    }
+    if (w.size() == 2 && w[0] == "leaves") {
+      PlainParser p;
+      std::string o;
+      try { o = chaiscript_verif::Access::leaves(p, vh::hex_decode(w[1])); }
+      catch (const chaiscript::exception::eval_error &e) { o = "eval_error " + cls(e.reason); }
+      catch (const std::exception &e) { o = std::string("LEAK:std::exception ") + vh::clean(e.what(), 60); }
+      catch (...) { o = "LEAK:unknown"; }
+      std::cout << o << "\n" << std::flush;
       continue;
     }
     if (w.size() != 1) { std::cout << "bad-op\n" << std::flush; continue; }
